@@ -283,6 +283,10 @@ type FlattenResult struct {
 	Loader   *Loader
 }
 
+// PreFlatten, when set, is called with the analyzed Spec before Flatten (C10: a caller that has already
+// queried the analyzer keeps using it afterwards).
+var PreFlatten func(an *analysis.Spec)
+
 // RunFlatten loads the root of b, analyzes it and calls Flatten under env.
 func RunFlatten(b *Bundle, o Opts, env Env, fault func(n int, path string) FaultKind) *FlattenResult {
 	res := &FlattenResult{}
@@ -303,6 +307,9 @@ func RunFlatten(b *Bundle, o Opts, env Env, fault func(n int, path string) Fault
 		res.Doc = sw
 		an := analysis.New(sw)
 		res.Analyzed = an
+		if PreFlatten != nil {
+			PreFlatten(an)
+		}
 		err = analysis.Flatten(analysis.FlattenOpts{
 			Spec: an, BasePath: VRoot + "/" + b.Root,
 			Minimal: o.Minimal, Expand: o.Expand, RemoveUnused: o.RemoveUnused, KeepNames: o.KeepNames, ContinueOnError: o.ContinueOnError,
